@@ -1,7 +1,7 @@
 """What is claimed per property (source of MANIFEST.json)."""
 
 TRUST = ('Trusted: cbmc 6.11.0 (goto-cc front end, dfcc contract instrumentation, symbolic execution, MiniSat), its C library '
-         'models (malloc/free/realloc/memcpy/memchr/ctype in the C locale via -D__NO_CTYPE), the wrapper-TU convention (real '
+         'models (malloc/free/realloc/memcpy/ctype in the C locale via -D__NO_CTYPE), the wrapper-TU convention (real '
          '/repo/htp/*.c #included verbatim; loop-contract clauses inserted by lib/annotate.py with strip(annotate(x))==x checked '
          'on every run), x86-64 LP64, bit-precise machine arithmetic. Assumed (replaced, never enforced) contracts and per-unit '
          'bounds are listed in the evidence file of every run. ')
@@ -17,6 +17,48 @@ CLAIMS = {
         design='4/C17', technique='CBMC code contracts (dfcc) with loop invariants on the real C functions; bounded reference equality for existential facts',
         note=TRUST),
 }
+
+CLAIMS.update({
+    'C13': dict(
+        text=('URI splitting: the partition / re-join law, the "/"-rule and equality with an independent RFC 3986 reference are decided by BOUNDED units on the '
+              'real htp_parse_uri / htp_parse_hostport (all targets up to N bytes over all byte values, every allocation-failure pattern; labelled bounded, '
+              'not counted as proved); the port rule (1..65535 else -1 and invalid) is proved unboundedly by the htp_parse_port / integer-parser contracts. '
+              'Known finding F-C13-IPV6 (junk after an IP literal is dropped) is carved out by an exact predicate and re-confirmed by a probe run.'),
+        design='4/C13', technique='CBMC bounded reference equality on the real splitter (stand-in: the dfcc contract on htp_parse_uri does not close); dfcc contracts for the port rule',
+        note=TRUST + 'C13: CBMC has no memchr model; a textbook first-occurrence model is supplied. bstr_dup_mem modelled in the splitter units (checked against the real function by c13_dup_model_lemma).'),
+    'C06': dict(
+        text=('Per-call accounting contracts enforced on every body state of both directions (identity, chunk data, chunk trailer line, chunk-size line, close-delimited) '
+              'and on the two body sinks: bytes delivered to callbacks == bytes consumed == -delta(bytes owed) == delta(message length) == delta(stream offset), delivered range is '
+              'exactly [read, read+n) of the chunk, body ends exactly when nothing is owed, end marker on completion; proved from an arbitrary well-formed parser state, '
+              'i.e. for every call history. Content equality over a whole multi-call body is the composition of the per-call range equalities (paper argument).'),
+        design='4/C06', technique='CBMC code contracts (dfcc) on the real state functions with ghost-logging stubs for callees',
+        note=TRUST),
+    'C09': dict(
+        text=('The two stream drivers htp_connp_req_data / htp_connp_res_data are enforced against the API contract: documented stream states only; DATA => whole chunk consumed; '
+              'DATA_OTHER => strictly fewer and resumable at the reported count; STOP/ERROR sticky with zero state-function calls and nothing touched; TUNNEL short-circuit; byte counters += len; '
+              'with every state function replaced by one shared state contract that each state function under contract is enforced against. Liveness (no endless DATA_OTHER ping-pong) and '
+              'termination of the driver loop are NOT decided.'),
+        design='4/C09', technique='CBMC code contracts (dfcc): driver against shared state contract via restricted function-pointer dispatch; loop invariant on for(;;)',
+        note=TRUST + 'C09: state functions not yet under contract (REQ_LINE, REQ_HEADERS, REQ_PROTOCOL, RES_LINE, RES_HEADERS, RES_FINALIZE, RES_BODY_DETERMINE) are ASSUMED to meet the shared contract; callbacks return OK/DECLINED/STOP/ERROR.'),
+    'C10': dict(
+        text=('Hard field limit: htp_connp_req_buffer/res_buffer checked on the real functions (lemma units, sizes enumerated): OK => buffered size + pending header <= limit and bytes preserved; '
+              'over the limit => ERROR with the buffer untouched (never truncation). Transaction count: htp_connp_tx_create refuses beyond max_tx so size <= max_tx+1 is invariant; '
+              'htp_connp_tx_freed removes exactly the leading NULL slots. Steady-state heap over 10^4 transactions is the composition (paper).'),
+        design='4/C10', technique='CBMC lemma harnesses on the real buffer functions; dfcc contracts on transaction bookkeeping',
+        note=TRUST),
+    'C16': dict(
+        text=('CONNECT handling per state: REQ_CONNECT_CHECK suspends with DATA_OTHER and cannot move the cursor (frame), WAIT_RESPONSE changes nothing until the response line is seen, '
+              'PROBE_DATA never discards pending bytes and ends in normal completion or TUNNEL on both sides; drivers short-circuit in TUNNEL with zero state calls. '
+              'Interleaving-level scenarios are the composition of these per-state contracts.'),
+        design='4/C16', technique='CBMC code contracts (dfcc) on the CONNECT states and drivers',
+        note=TRUST),
+    'C04': dict(
+        text=('Pairing: RES_IDLE attaches a starting response to the transaction at position out_next_tx_index and advances the index by one, creating a fresh transaction (appended last) when no '
+              'request waits there; REQ_IDLE / htp_connp_tx_create append new requests last with index = old size; PIPELINED set iff size > out_next_tx_index; tx_freed keeps index and list aligned. '
+              '"Transaction i holds request i and response i" is arithmetic over these post-conditions (paper).'),
+        design='4/C04', technique='CBMC code contracts (dfcc) with a witness slot over the transaction list',
+        note=TRUST),
+})
 
 NOT_YET = 'not yet built in this session (planned in DESIGN.md section 4); no check is registered, so nothing is claimed'
 NA = {
